@@ -132,8 +132,10 @@ def dec_model(x):
 
 
 def model_batch(cases):
-    """cases: list of (stream, offset) -> list of model results"""
-    reqs = [(600, [exact(off) * 1000000, parse_lines(s)]) for s, off in cases]
+    """cases: list of (stream text, offset) -> list of model results: read offset (tokenise text), request 605 (the
+    text front end - splitlines, lower-casing, timecode field, tokens - is the Coq model model/SccTokenise.v; the Python
+    copy parse_lines below is kept only as a cross-check, see tokeniser_agrees)"""
+    reqs = [(605, [exact(off) * 1000000, s]) for s, off in cases]         # the text goes through the Coq tokeniser
     return [dec_model(x) for x in oracle_batch(reqs)]
 
 
@@ -220,3 +222,11 @@ def blanks_differ(a, b):
     if not isinstance(va, Ok) or not isinstance(vb, Ok) or len(va.v) != len(vb.v):
         return False
     return any(la != lb for (la, _), (lb, _) in zip(va.v, vb.v))
+
+
+def tokeniser_agrees(streams):
+    """cross-check of the two tokenisers on text: Coq (605) vs the Python copy of the reader's rules (600); -> number of
+    texts on which the full model gives different answers"""
+    a = oracle_batch([(605, [0, s]) for s in streams])
+    b = oracle_batch([(600, [0, parse_lines(s)]) for s in streams])
+    return sum(1 for x, y in zip(a, b) if x != y)
